@@ -183,8 +183,10 @@ func (e *Exec) callFunction(fr *Frame, ins ssa.Instruction, fn *ssa.Function, ar
 			}
 			name := fmt.Sprintf("$calls$must%d", i)
 			cnt := e.get(st, name, SInt)
-			e.set(st, name, SInt, Ite(g, "(+ "+cnt+" 1)", cnt))
+			cond := g
 			if mc.Recv != nil && len(args) > 0 {
+				// "on <receiver>": only calls on that receiver (evaluated when the call is made) are counted; calls of the
+				// same callee on other receivers are not this clause's business
 				env := e.envForFunc(fr, st, fr.entryState, nil)
 				env.block = ins.Block()
 				want := e.evalSpec(mc.Recv.E, env)
@@ -197,9 +199,9 @@ func (e *Exec) callFunction(fr *Frame, ins ssa.Instruction, fn *ssa.Function, ar
 				if want.Addr != nil {
 					wt = e.reify(want)
 				}
-				e.Out.AddObl(&Obligation{Name: fmt.Sprintf("%s/mustcall:%s/receiver", FuncKey(fr.fn), trimPkg(key)), Func: FuncKey(fr.fn), Kind: "calls", Label: "receiver", Text: "the call of " + key + " is on " + mc.Recv.Text, Src: mc.Src,
-					Formula: Imp(g, Eq(gt, wt)), Inputs: e.obsInputs(fr)})
+				cond = And(g, Eq(gt, wt))
 			}
+			e.set(st, name, SInt, Ite(cond, "(+ "+cnt+" 1)", cnt))
 		}
 	}
 	ctr := e.P.Spec.Contracts[key]
